@@ -1,6 +1,9 @@
 package main
 
-import "go/types"
+import (
+	"go/token"
+	"go/types"
+)
 
 func registerMoreIntrinsics(e *Engine) {
 	in := e.intrinsics
@@ -14,6 +17,34 @@ func registerMoreIntrinsics(e *Engine) {
 	in["crypto/internal/boring/sig.StandardCrypto"] = nop
 	in["crypto/internal/boring/sig.BoringCrypto"] = nop
 	in["crypto/internal/boring/sig.FIPSOnly"] = nop
+	// package-level math/rand: every permutation / value is explored
+	in["math/rand.Perm"] = func(fr *frame, args []value) value {
+		n := int(asInt64(args[0]))
+		m := make([]value, n)
+		for i := range m {
+			m[i] = i
+		}
+		for i := n - 1; i > 0; i-- {
+			j := fr.r.choice(i + 1)
+			m[i], m[j] = m[j], m[i]
+		}
+		return m
+	}
+	in["math/rand.Shuffle"] = func(fr *frame, args []value) value {
+		n := int(asInt64(args[0]))
+		for i := n - 1; i > 0; i-- {
+			j := fr.r.choice(i + 1)
+			fr.r.call(fr, token.NoPos, args[1], []value{i, j})
+		}
+		return nil
+	}
+	in["math/rand.Intn"] = func(fr *frame, args []value) value {
+		n := int(asInt64(args[0]))
+		if n > 16 {
+			fr.r.inconclusive("math/rand.Intn(%d): too many alternatives", n)
+		}
+		return fr.r.choice(n)
+	}
 	// context.WithValue without the reflectlite comparability check
 	in["context.WithValue"] = func(fr *frame, args []value) value {
 		r := fr.r
